@@ -95,7 +95,7 @@ func execProcUci(script []string) string {
 				best++
 			case l == "readyok":
 				ready++
-			case strings.HasPrefix(l, "info ") || strings.HasPrefix(l, "id ") || l == "uciok" || l == "":
+			case wholeLine(l):
 			default:
 				odd++
 			}
@@ -147,6 +147,18 @@ func execProcUci(script []string) string {
 		case t == "Gd":
 			gos++
 			queue.WriteString("go depth 2\n")
+		case t == "Ge":
+			gos++
+			queue.WriteString("position fen 8/8/8/4k3/8/8/4P3/4K3 w - - 0 1\ngo depth 14\n")
+		case strings.HasPrefix(t, "RR"):
+			k, _ := strconv.Atoi(t[2:])
+			for i := 0; i < k; i++ {
+				readys++
+				queue.WriteString("isready\n")
+				if i%8 == 7 {
+					flush()
+				}
+			}
 		case t == "Gm":
 			gos++
 			queue.WriteString("go movetime 20000\n")
@@ -226,6 +238,10 @@ func procOps(o *Out, seed uint64, n int, corpus string) {
 	for i := 0; i < n; i++ {
 		var toks []string
 		rounds := 1 + rng.Intn(2)
+		if i%5 == 4 {
+			toks = append(toks, "Ge", fmt.Sprintf("RR%d", 300+rng.Intn(300)), "S", "B")
+			rounds = 0
+		}
 		for j := 0; j < rounds; j++ {
 			if rng.Intn(3) == 0 {
 				toks = append(toks, "X"+hexOfNonEmpty(garbageLines[rng.Intn(len(garbageLines))]))
